@@ -759,7 +759,8 @@ def run(ck):
                         " -- Gen/Prims.v kept as hand-written model, tie = correspondence only")
     res = vv.prove("Properties_C13", vv.FLOCQ_AXIOMS)
     ck.add_proof(res)
-    ck.trusted += ["translate/cxx_mini.py (C++ subset -> CxxMini AST)",
+    ck.trusted += ["translate/cxx_mini.py (C++ subset -> CxxMini AST; the helpers issmall<double> of utility.h, has_value of "
+                   "value.h and real::base are parsed and inlined at their call sites, not assumed)",
                    "coq/Cxx/CxxMini.v as the semantics of that subset; coq/Base/F64.v (Flocq BinarySingleNaN, "
                    "fmod/fmin/fmax/floor defined there) as the semantics of binary64 and of the libm-adjacent calls",
                    "extraction: ExtrOcamlBasic only, no Extract Constant; ocaml/prims_driver.ml + zutil.ml "
